@@ -25,6 +25,9 @@ class SimClock:
         self.tick_per_read_ns = 0  # time that passes between two readings of the clock (0 = frozen during a call)
         self.tai_offset_s = 37  # what CLOCK_TAI is ahead of the wall clock on a host whose kernel knows the leap seconds
         self.reads: t.List[int] = []
+        # the monotonic clock of the same host: it advances whenever time passes (advance_ns with d > 0, the per-reading tick), never
+        # when the wall clock is merely SET or stepped back (NTP correction, VM resume, operator)
+        self.mono_ns = 86_400_000_000_000  # "a day since boot"
 
     def time_ns(self) -> int:
         from simworld import threads
@@ -35,6 +38,15 @@ class SimClock:
         if len(self.reads) > 10000:
             del self.reads[:5000]
         self.ns += self.tick_per_read_ns
+        self.mono_ns += max(0, self.tick_per_read_ns)
+        return v
+
+    def monotonic_ns(self) -> int:
+        from simworld import threads
+
+        threads.mark("clock")
+        v = self.mono_ns
+        self.mono_ns += max(0, self.tick_per_read_ns)
         return v
 
     def time(self) -> float:
@@ -48,6 +60,8 @@ class SimClock:
 
     def advance_ns(self, d: int) -> None:
         self.ns += int(d)
+        if d > 0:
+            self.mono_ns += int(d)
 
 
 class _TimeShim:
@@ -78,7 +92,17 @@ class _TimeShim:
             return self.clock_gettime_ns(clk) / 1e9
         return _t.clock_gettime(clk)
 
-    def __getattr__(self, name):  # everything else (monotonic, sleep, struct_time ...) is the real module's
+    # the host's monotonic clocks follow the simulated passage of time (not the wall clock's steps)
+    def monotonic_ns(self) -> int:
+        return self._c.monotonic_ns()
+
+    def monotonic(self) -> float:
+        return self._c.monotonic_ns() / 1e9
+
+    perf_counter_ns = monotonic_ns
+    perf_counter = monotonic
+
+    def __getattr__(self, name):  # everything else (sleep, struct_time ...) is the real module's
         import time as _t
 
         return getattr(_t, name)
